@@ -39,6 +39,7 @@ typedef struct {
 } qprog;
 
 int  qp_parse(const char *text, qprog *p);          // 0 ok
+void qp_run_main(const qprog *p);                   // M0 first: scripts on client threads, thread 0 in dispatch_main()
 void qp_run(const qprog *p);                        // builds queues, warm-up, focus, runs, waits for quiescence
 int  qp_check(const qprog *p, const vx_log *l, char *msg, size_t len); // all queue oracles
 int  qp_item_id(int thread, int opidx);             // item id of an op (apply: base id, iterations add 1000*(i+1))
